@@ -384,6 +384,28 @@ def make_cases(run, scratch):
                 cfg = ["filter %d %d" % (tynum[t], irng.choice([2, 0])) for t in upper]
             cfg += ["flags %d" % (0 if irng.random() < 0.8 else flag_choices(irng, "xml"))]
             cases.append(("interxml:%d|%s" % (i, ";".join(cfg)), ["env HWLOC_LIBXML_IMPORT %d" % (i % 2)] + cfg + ["src xml " + path], "genxml"))
+        # documents in the 2.x format, whose import TRANSLATES types before the filters apply: a Die written as a
+        # Group with subtype "Die" / kind 104 (what hwloc 2.0 exported), loaded with the filter of the translated
+        # type and of the written type set to each value in turn (own random stream)
+        lrng = random.Random("legacy-%s" % run.seed)
+        nleg = 0
+        for i in range(200 if quick else 4000):
+            if nleg >= (16 if quick else 400):
+                break
+            root, pus, numas = RG.gen_tree(lrng)
+            xml = RG.tree_to_xml(root, dont_merge_groups=lrng.random() < 0.1)
+            if 'type="Die"' not in xml or "OSDev" in xml:
+                continue
+            how = lrng.choice(['subtype="Die" kind="104" subkind="0"', 'subtype="Die" kind="0" subkind="0"', 'kind="104" subkind="0"'])
+            xml = xml.replace('<topology version="3.0">', '<topology version="2.0">').replace('type="Die"', 'type="Group" ' + how)
+            path = os.path.join(scratch.dir, "legacy%d.xml" % nleg)
+            with open(path, "w") as f:
+                f.write(xml)
+            for cfg in (["filter 2 1"], ["filter 13 1"], ["filter 2 2"], ["filter 2 1", "filter 13 2"], S.filter_lines(lrng)):
+                cfg = cfg + ["flags %d" % (0 if lrng.random() < 0.7 else flag_choices(lrng, "xml"))]
+                cases.append(("legacyxml:%d|%s" % (nleg, ";".join(cfg)), ["env HWLOC_LIBXML_IMPORT %d" % (nleg % 2)] + cfg + ["src xml " + path], "genxml"))
+            nleg += 1
+        run.cov["legacy_2x_documents"] = nleg
     except Exception as e:
         run.cov["genxml_generator_unavailable"] = repr(e)
     xmls = S.xml_corpus()
